@@ -302,6 +302,14 @@ class CMSys(E1):
                     f"sketch {s}: add({key!r},{v}): smallest counter moved {pre_c} -> {c1} "
                     f"({steps} steps, allowed 0..{v})"
                 )
+            if c1 < min(pre_c + v, self.nr + 1):
+                # add(key, v) is v unit adds and every unit step below num_reserved+1 is
+                # exact, so the reserved part of a larger add cannot be lost either
+                probs.append(
+                    f"sketch {s}: add({key!r},{v}): smallest counter {pre_c} -> {c1}; the steps up "
+                    f"to num_reserved+1 = {self.nr + 1} are exact, so it must reach at least "
+                    f"{min(pre_c + v, self.nr + 1)}"
+                )
             if pre_c + v <= self.nr + 1:
                 if steps != v or post[key] != pre[key] + v:
                     probs.append(
